@@ -232,16 +232,20 @@ class Run:
         self.out = io.StringIO()
         self.raised = None
 
+    def _guard_on(self):
+        from vlib import runner
+        return self.line_guard or runner.FORCE_LINE_GUARD[0]
+
     def step(self, k=1):
         with contextlib.redirect_stdout(self.out):
-            if self.line_guard:
+            if self._guard_on():
                 self._guarded("DoGlobalIteration(%d)" % k, self.solver.DoGlobalIteration, k)
             else:
                 self.solver.DoGlobalIteration(k)
 
     def solve(self):
         with contextlib.redirect_stdout(self.out):
-            if self.line_guard:
+            if self._guard_on():
                 return self._guarded("Solve()", self.solver.Solve)
             return self.solver.Solve()
 
